@@ -25,7 +25,7 @@ def run(ck):
     ex = _sys.run_sys(ck, "c13")
     sys_eval = ck.stats.get("direct_clauses_evaluated", 0)
     sys_scn = ck.stats.get("scenarios", 0)
-    mb_common.run_mb(ck, {"unique", "handover"}, box_clauses={"delivery"})
+    mb_common.run_mb(ck, {"unique", "handover", "frame", "session_present", "delivery", "offline_queue"}, box_clauses={"delivery"})
     ck.evaluations += sys_eval
     ck.distinct += sys_scn
     if ex:
